@@ -2,7 +2,7 @@
    Model: Syn/Types.v (generated accessors of go_ast.go.tmpl over the inferred RangeFields, the NilNode of
    go_ast_factory.go.tmpl, Child/Children/Next/NextAll of go_ast_tree.go.tmpl; validator check_type). *)
 From Coq Require Import List NArith ZArith Bool Arith.
-From TM Require Import Syn.Types Syn.Types_proofs.
+From TM Require Import Syn.Types Syn.Types_proofs Syn.TypesSym Syn.TypesSym_proofs Syn.Infer Syn.InferFit Syn.InferFit_proofs.
 Import ListNotations.
 Local Open Scope nat_scope.
 
@@ -15,20 +15,35 @@ Proof. exact accessor_types. Qed.
 
 (* An accessor can only panic in its generated type assertion ToNode(child).(Category): on a returned child
    whose type the category does not list, or -- absent child -- on NilNode when NilNode does not implement the
-   category (the template leaves that method out for a category called TokenSet). Accessors that wrap the
+   category (the template leaves that method out for the synthetic TokenSet category). Accessors that wrap the
    child in a struct or assert the base interface never panic. *)
 Theorem C21_accessor_panics_only_in_assertion : forall cats fs i kids f,
   nth_error fs i = Some f -> accessor cats fs i kids = RPanic ->
   (exists t, assert_ok cats (f_assert f) t = false) /\ (0 < f_assert f)%Z.
 Proof. exact accessor_panics_only_in_assertion. Qed.
 
-(* "never panics" is refuted for the faithful model: an optional field whose selector is a user category that
-   is called TokenSet, on a node without that child (witness replayed on the implementation: known finding
-   nilnode-not-in-tokenset). *)
-Theorem C21_never_panics_refuted :
+(* "never panics" needs the NilNode clause: in the accessor model an optional field asserting a category that
+   NilNode does not implement panics on a node without that child. This was reachable in the pinned
+   implementation (the template left the NilNode method out for every category CALLED TokenSet, also a
+   user-declared one: fixed, known_findings "fixed: property=C21 fcc27f1"); since the fix only the synthetic
+   TokenSet category lacks the method, and no field can name it. *)
+Theorem C21_never_panics_needs_nilnode :
   exists cats fs kids, accessor cats fs 0 kids = RPanic.
 Proof.
   exists [mkCat [2%N] false], [mkF [2%N] (-1) false false 1], []. vm_compute. reflexivity.
+Qed.
+
+(* never-panics: a field whose asserted category exists, lists every node type of the field's expanded
+   selector and is implemented by NilNode (assert_covers: what go_ast.go.tmpl guarantees for every declared
+   category after the fix) has an accessor that never panics, on ANY child sequence. *)
+Theorem C21_accessor_never_panics : forall cats fs i kids f,
+  nth_error fs i = Some f -> assert_covers cats f -> accessor cats fs i kids <> RPanic.
+Proof. exact accessor_never_panics. Qed.
+
+Example C21_assert_covers_satisfiable :
+  assert_covers [mkCat [1%N; 2%N] true] (mkF [1%N; 2%N] (-1) false false 1).
+Proof.
+  intros _. exists (mkCat [1%N; 2%N] true). repeat split. intros t H. exact H.
 Qed.
 
 (* required_present + children_covered + never-panics + accessor_types, w.r.t. the child sequences an arrow
@@ -43,6 +58,84 @@ Theorem C21_validated_fields_fit_all_trees_partial : forall cats fs inj rep bodi
   forall e, In e bodies -> list_free e = true ->
   forall kids, produces e kids -> node_ok cats fs inj kids = true.
 Proof. exact check_type_sound. Qed.
+
+(* The same guarantee for bodies with lists of ANY length. check_sym is the symbolic validator for types whose
+   accessors all fetch from the parent (FetchAfter = -1: what fixConflictingFields leaves when no two fields
+   share a node type): it bounds, per field, the number of children matching the selector over the whole body
+   (0, 1, "2 or more"); the proof is by induction on the derivation of the child sequence, the list case being
+   the induction on the number of repetitions. *)
+Theorem C21_symbolic_validator_any_list_length : forall cats fs inj e,
+  check_sym cats fs inj e = true -> forall kids, produces e kids -> node_ok cats fs inj kids = true.
+Proof. exact check_sym_sound. Qed.
+
+(* The validator evaluated on the implementation's inferred fields (check_type_any: symbolic, or enumeration
+   for list-free bodies): once it accepts, node_ok holds for EVERY child sequence of EVERY body of the type,
+   no bound on the repetitions. Bodies with lists whose type also has FetchAfter chains are outside it (they
+   are still validated with at most 2 repetitions per list, theorem ..._partial above). *)
+Theorem C21_validated_fields_fit_all_trees : forall cats fs inj rep bodies,
+  check_type_any cats fs inj rep bodies = true ->
+  forall e, In e bodies -> forall kids, produces e kids -> node_ok cats fs inj kids = true.
+Proof. exact check_type_any_sound. Qed.
+
+(* Root: (Aleaf | Bleaf)+ x=Two? with a list of three repetitions *)
+Example C21_symbolic_example :
+  let fs := [mkF [1%N; 2%N] (-1) true true (-1); mkF [5%N] (-1) false false 0] in
+  let e := CSeq (CList (CChoice (CNode 1) (CNode 2)) true) (COpt (CNode 5)) in
+  check_sym [] fs 6%N e = true /\ check_type_any [] fs 6%N 2 [e] = true /\
+  produces e [1%N; 2%N; 2%N; 5%N] /\ list_free e = false.
+Proof.
+  cbv zeta. repeat split; try (vm_compute; reflexivity).
+  apply (P_seq _ _ [1%N; 2%N; 2%N] [5%N]); [|apply P_some; apply P_node].
+  apply (P_more _ _ [1%N] [2%N; 2%N]); [apply P_left; apply P_node|].
+  apply (P_more _ _ [2%N] [2%N]); [apply P_right; apply P_node|]. apply P_one. apply P_right. apply P_node.
+Qed.
+
+(* infer_fits: the connection between the step-by-step model of syntax/types.go (Syn/Infer.v, compared with
+   ExtractTypes on random grammars: kind c21.infer) and the validator. FULL STATEMENT (not proved): for every
+   grammar and every arrow of a type, the fields extract_types computes are accepted by check_type_any against
+   the body. PROVED for the fragment [simple]: bodies made of sequences, optionals, + and * lists (with a
+   separator that produces no node), %prec, nested arrows and reported tokens, i.e. exprPhrase for Arrow,
+   Reference-to-terminal, Sequence (concatPhrases, merging repeated fields into lists), Optional, List, Prec and
+   the field-less kinds: the phrase the model infers (whatever the Tarjan state and the nonterminal handler)
+   passes the symbolic validator, so required fields are always present, optional/list flags are right and the
+   selectors cover the children. Missing: references to nonterminals (the cycle rule), Choice (mergePhrases,
+   LongestPath/topoSort), named fields (Assign/Append), categories, and fixConflictingFields (to_fields puts
+   FetchAfter = -1, which is what fixConflictingFields leaves here since the fields of the fragment have
+   pairwise different single types; the example below checks it on extract_types for one grammar). *)
+Theorem C21_infer_fits_partial : forall tid m np e st inj,
+  (forall a b, tid a = tid b -> a = b) -> simple m e = true ->
+  check_sym [] (to_fields tid (fst (expr_phrase_with np m e st))) inj (cexpr_of tid m e) = true.
+Proof. exact infer_fits. Qed.
+
+(* ... hence, by the soundness of the validator, node_ok for EVERY child sequence of the body (any list length) *)
+Theorem C21_inferred_fields_fit_all_trees_partial : forall tid m np e st inj,
+  (forall a b, tid a = tid b -> a = b) -> simple m e = true ->
+  forall kids, produces (cexpr_of tid m e) kids ->
+  node_ok [] (to_fields tid (fst (expr_phrase_with np m e st))) inj kids = true.
+Proof. exact infer_fits_all_trees. Qed.
+
+(* the numbering of node types can be injective *)
+Theorem C21_tid_injective_exists : forall a b, tid_enc a = tid_enc b -> a = b.
+Proof. exact tid_enc_inj. Qed.
+
+(* N0 -> R: (ta -> A) tk? ((tb -> A) separator tc)+ ;  with tk reported as K: R has the fields A+ and K? *)
+Example C21_infer_example :
+  let body := XSeq [XArrow [65%N] (XRef 0); XOpt (XRef 1); XList (XArrow [65%N] (XRef 2)) (XRef 3) true] in
+  let m := mkModel 4 [XArrow [82%N] body] [(0, false)] [] [(1, [75%N])] in
+  simple m body = true /\
+  map (fun f => (pf_types f, pf_list f, pf_null f)) (ph_fields (fst (expr_phrase m body (init_tarjan 1)))) =
+    [([[65%N]], true, false); ([[75%N]], false, true)] /\
+  t_names (extract_types m) = [[65%N]; [82%N]; [75%N]] /\
+  map (map (fun f => (rf_sel f, rf_after f, rf_req f, rf_list f))) (t_fields (extract_types m)) =
+    [[]; [([[65%N]], (-1)%Z, true, true); ([[75%N]], (-1)%Z, false, false)]; []] /\
+  produces (cexpr_of tid_enc m body) [tid_enc [65%N]; tid_enc [65%N]; tid_enc [65%N]].
+Proof.
+  cbv zeta. repeat split; try (vm_compute; reflexivity).
+  cbn [cexpr_of tok_name assoc_nat m_tokens Nat.eqb].
+  apply (P_seq _ _ [tid_enc [65%N]] [tid_enc [65%N]; tid_enc [65%N]]).
+  - apply (P_seq _ _ [tid_enc [65%N]] []); [|apply P_none]. apply (P_seq _ _ [] [tid_enc [65%N]]); [apply P_empty | apply P_node].
+  - apply (P_more _ _ [tid_enc [65%N]] [tid_enc [65%N]]); [apply P_node | apply P_one; apply P_node].
+Qed.
 
 (* node_ok in words: no accessor panics and every child that is not an injected token is returned by at least
    one accessor (the clauses "required accessors return a node" and "returned nodes are in the selector" are
@@ -72,6 +165,12 @@ Qed.
 
 Print Assumptions C21_accessor_types.
 Print Assumptions C21_accessor_panics_only_in_assertion.
-Print Assumptions C21_never_panics_refuted.
+Print Assumptions C21_never_panics_needs_nilnode.
+Print Assumptions C21_accessor_never_panics.
 Print Assumptions C21_validated_fields_fit_all_trees_partial.
+Print Assumptions C21_symbolic_validator_any_list_length.
+Print Assumptions C21_validated_fields_fit_all_trees.
+Print Assumptions C21_infer_fits_partial.
+Print Assumptions C21_inferred_fields_fit_all_trees_partial.
+Print Assumptions C21_tid_injective_exists.
 Print Assumptions C21_node_ok_meaning.
